@@ -1,5 +1,6 @@
 (** Pins for C08: the statements written out, so that no theorem is weakened quietly. *)
-From TucModel Require Import Base.Bytes Model.Json Spec.JsonSpec Proofs.C08 Properties.C08.
+From TucModel Require Import Base.Bytes Model.Bounds Model.BoundsParse Model.Scan Model.Utf8 Model.Json Model.Opt
+     Model.CutStr Spec.JsonSpec Spec.Fields Spec.JsonArray Proofs.BoundsFacts Proofs.C08 Proofs.C08Array Proofs.C08Record Model.Args Properties.C08.
 
 
 Check C08_element_roundtrip :
@@ -9,3 +10,48 @@ Print Assumptions C08_element_roundtrip.
 Check C08_escape_roundtrip :
   forall s : bytes, json_unescape (flat_map json_escape_byte s) = Some s.
 Print Assumptions C08_escape_roundtrip.
+
+Check C08_array_roundtrip :
+  forall parts : list bytes, json_read_array (json_array_line parts) = Some parts.
+Print Assumptions C08_array_roundtrip.
+
+Check C08_one_element_per_part :
+  forall (o : opt) (line : bytes) (fields : list mtch) (bs : list ubound) (l2 : list bof) (body : bytes),
+  json_opts o ->
+  Forall bound_nz bs -> unmarked_init bs -> set_last_flag bs = bs ->
+  (if needs_unpack (map Bound bs)
+   then option_map items (unpack_list (map Bound bs) (length fields))
+   else Some (map Bound bs)) = Some l2 ->
+  out_loop o line fields l2 = ROk body ->
+  exists pss, Forall2 (bound_elems o line fields) bs pss
+              /\ body = intercalate [ch_comma] (map json_string (concat pss)).
+Print Assumptions C08_one_element_per_part.
+
+Check C08_record_is_one_array :
+  forall (o : opt) (rec out : bytes) (bs0 : list ubound),
+  json_opts o -> plain_bounds (items (o_bounds o)) bs0 ->
+  cut_str o rec = Some (ROk out) ->
+  (out = [] /\ o_only_delimited o = true)
+  \/ (out = [o_eol o] /\ (o_trim o = None -> rec = []))
+  \/ exists line fields bs pss,
+       (o_complement o = false -> bs = bs0)
+       /\ Forall2 (bound_elems o line fields) bs pss
+       /\ out = json_array_line (concat pss) ++ [o_eol o].
+Print Assumptions C08_record_is_one_array.
+
+Check C08_nonempty_record_decodes :
+  forall (o : opt) (rec out : bytes) (bs0 : list ubound),
+  json_opts o -> plain_bounds (items (o_bounds o)) bs0 ->
+  o_trim o = None -> o_only_delimited o = false -> rec <> [] ->
+  cut_str o rec = Some (ROk out) ->
+  exists line fields bs pss,
+    (o_complement o = false -> bs = bs0)
+    /\ Forall2 (bound_elems o line fields) bs pss
+    /\ out = json_array_line (concat pss) ++ [o_eol o]
+    /\ json_read_array (json_array_line (concat pss)) = Some (concat pss).
+Print Assumptions C08_nonempty_record_decodes.
+
+Check C08_parsed_bounds_are_plain :
+  forall (s : bytes) (u : ublist),
+  existsb is_brace s = false -> parse_ublist s = Some u -> exists bs, plain_bounds (items u) bs.
+Print Assumptions C08_parsed_bounds_are_plain.
